@@ -59,6 +59,10 @@ def format_number(n, n_type):
             # for very large and very small magnitudes
             digits = 7 if n_type == CellType.SINGLE else 16
             s = '%.*g' % (digits, n)
+            if math.isinf(float(s)):
+                # the largest DOUBLEs round up to something that can
+                # not be read back; show one more digit for them
+                s = '%.*g' % (digits + 1, n)
             exp_char = 'E' if n_type == CellType.SINGLE else 'D'
             s = s.replace('e', exp_char)
     else:
